@@ -443,19 +443,18 @@ func (a Float) M__bool__() (Object, error) {
 }
 
 func (a Float) M__int__() (Object, error) {
-	if a >= IntMin && a <= IntMax {
+	switch {
+	case math.IsNaN(float64(a)):
+		return nil, ExceptionNewf(ValueError, "cannot convert float NaN to integer")
+	case math.IsInf(float64(a), 0):
+		return nil, ExceptionNewf(OverflowError, "cannot convert float infinity to integer")
+	}
+	// Float(IntMax) is 2**63 which doesn't fit in an Int
+	if a >= IntMin && a < -IntMin {
 		return Int(a), nil
 	}
-	frac, exp := math.Frexp(float64(a))              // x = frac << exp; 0.5 <= abs(x) < 1
-	fracInt := int64(frac * (1 << float64precision)) // x = frac << (exp - float64precision)
-	res := big.NewInt(fracInt)
-	shift := exp - float64precision
-	switch {
-	case shift > 0:
-		res.Lsh(res, uint(shift))
-	case shift < 0:
-		res.Rsh(res, uint(-shift))
-	}
+	// Every float this big is an integer so this is exact
+	res, _ := new(big.Float).SetFloat64(float64(a)).Int(nil)
 	return (*BigInt)(res), nil
 }
 
@@ -471,16 +470,59 @@ func (a Float) M__complex__() (Object, error) {
 }
 
 func (a Float) M__round__(digitsObj Object) (Object, error) {
-	digits := 0
-	if digitsObj != None {
-		var err error
-		digits, err = MakeGoInt(digitsObj)
-		if err != nil {
-			return nil, err
-		}
+	f := float64(a)
+	if digitsObj == None {
+		// round to the nearest integer, ties to even
+		return Float(math.RoundToEven(f)).M__int__()
 	}
-	scale := Float(math.Pow(10, float64(digits)))
-	return scale * Float(math.Floor(float64(a)/float64(scale))), nil
+	digits, err := MakeGoInt(digitsObj)
+	if err != nil {
+		return nil, err
+	}
+	if math.IsNaN(f) || math.IsInf(f, 0) || f == 0 {
+		return a, nil
+	}
+	// A float has less than 17 significant digits and exponents from -324 to 308
+	if digits > 400 {
+		return a, nil
+	}
+	if digits < -400 {
+		return Float(math.Copysign(0, f)), nil
+	}
+	// Round the exact value of the float to a multiple of
+	// 10**-digits, ties to even, and convert that back exactly
+	absDigits := digits
+	if absDigits < 0 {
+		absDigits = -absDigits
+	}
+	scale := new(big.Int).Exp(big.NewInt(10), big.NewInt(int64(absDigits)), nil)
+	x := new(big.Rat).SetFloat64(f)
+	if digits >= 0 {
+		x.Mul(x, new(big.Rat).SetInt(scale))
+	} else {
+		x.Quo(x, new(big.Rat).SetInt(scale))
+	}
+	// n = floor(x + 1/2), less one if that was a tie and n is odd
+	half := big.NewRat(1, 2)
+	sum := new(big.Rat).Add(x, half)
+	n := new(big.Int).Div(sum.Num(), sum.Denom()) // Div rounds towards -infinity for a positive denominator
+	if new(big.Rat).SetInt(n).Cmp(sum) == 0 && n.Bit(0) == 1 {
+		n.Sub(n, big.NewInt(1))
+	}
+	res := new(big.Rat).SetInt(n)
+	if digits >= 0 {
+		res.Quo(res, new(big.Rat).SetInt(scale))
+	} else {
+		res.Mul(res, new(big.Rat).SetInt(scale))
+	}
+	r, _ := res.Float64()
+	if math.IsInf(r, 0) {
+		return nil, ExceptionNewf(OverflowError, "rounded value too large to represent")
+	}
+	if r == 0 {
+		r = math.Copysign(0, f)
+	}
+	return Float(r), nil
 }
 
 // Rich comparison
